@@ -103,6 +103,8 @@ CONSUMERS = {
     "gc-deep-structs-walk": "(def x (nest-struct D)) (gccollect) (churn) (gccollect) (walk-chain x D :struct :a)",
     "gc-deep-tuples-walk": "(def x (nest-tuple D)) (gccollect) (churn) (gccollect) (walk-chain x D :tuple 0)",
     "gc-deep-closures": "(var f (fn [] 0)) (repeat (min D 200000) (let [g f] (set f (fn [] (g))))) (gccollect) (type f)",
+    "proto-cycle": ("(defn cyc [n] (def ts (seq [i :range [0 (max 1 (min n 5000))]] @{i i})) (for i 0 (length ts) (table/setproto (ts i) (ts (% (+ i 1) (length ts))))) (ts 0))",
+                    "(def t (cyc D)) (get t :missing) (in t 0) (table/proto-flatten t) (length (marshal t)) (string/format \"%p %j\" t 1) (= t (table/clone t)) (deep= t (table/clone t)) (hash t) (gccollect) (length t)"),
     "proto-chain-lookup": "(def t (proto-chain D)) (get t :base) (get t :missing)",
     "proto-chain-flatten": "(table/proto-flatten (proto-chain D))",
     "proto-chain-marshal": "(marshal (proto-chain D))",
@@ -165,6 +167,13 @@ def run(ctx):
         err = res.err.decode(errors="replace")
         last = err.strip().splitlines()[-1] if err.strip() else ""
         if res.timed_out or (res.sig in (signal.SIGXCPU, signal.SIGKILL)):
+            if dep <= 10000 and res.sig != signal.SIGKILL:
+                # "either complete or raise": at these sizes 170 CPU-seconds is not slowness; confirm once before calling it a hang
+                res2 = core.run([exe, paths[name], str(dep)], timeout=180, cpu=170, mem_mb=6000, stack_kb=8192, san=False)
+                core.discard(res2)
+                if res2.timed_out or res2.sig == signal.SIGXCPU:
+                    ctx.violation("hang:%s" % name, "%s at depth %d neither completed nor raised within 170 CPU-seconds (twice)" % (name, dep), files)
+                    return
             with ctx.lock:
                 ctx.inconclusive.append("%s@%d:watchdog" % (name, dep))
             return
